@@ -167,19 +167,21 @@ struct Variant {
     /// preloads contain rows with NULL in column a (not for `late`: CREATE INDEX skips NULL keys, so the
     /// ORDER BY probe would already fail on the empty history - KF-C10-02 - and hide the rest)
     preload_nulls: bool,
+    /// probe operators not evaluated on this variant (except in pass `all-probes`), each justified by a listed finding
+    skip_probes: &'static [&'static str],
 }
 const T_PK: &str = "CREATE TABLE t(id INT PRIMARY KEY, a INT, b TEXT)";
 const T_PLAIN: &str = "CREATE TABLE t(id INT, a INT, b TEXT)";
 const VARIANTS: &[Variant] = &[
-    Variant { name: "pk", flavor: Flavor::Pk, table_a: T_PK, table_b: T_PLAIN, pre_a: &[], late_a: &[], preload_nulls: true },
-    Variant { name: "uniq", flavor: Flavor::Uniq, table_a: "CREATE TABLE t(id INT, a INT UNIQUE, b TEXT)", table_b: T_PLAIN, pre_a: &[], late_a: &[], preload_nulls: true },
-    Variant { name: "sec", flavor: Flavor::A, table_a: T_PK, table_b: T_PK, pre_a: &["CREATE INDEX ia ON t(a)"], late_a: &[], preload_nulls: true },
-    Variant { name: "sec_nopk", flavor: Flavor::A, table_a: T_PLAIN, table_b: T_PLAIN, pre_a: &["CREATE INDEX ia ON t(a)"], late_a: &[], preload_nulls: true },
-    Variant { name: "comp", flavor: Flavor::A, table_a: T_PK, table_b: T_PK, pre_a: &["CREATE INDEX iab ON t(a, b)"], late_a: &[], preload_nulls: true },
-    Variant { name: "partial", flavor: Flavor::A, table_a: T_PK, table_b: T_PK, pre_a: &["CREATE INDEX ip ON t(a) WHERE a > 1"], late_a: &[], preload_nulls: true },
-    Variant { name: "text", flavor: Flavor::Text, table_a: T_PK, table_b: T_PK, pre_a: &["CREATE INDEX ib ON t(b)"], late_a: &[], preload_nulls: true },
-    Variant { name: "late", flavor: Flavor::A, table_a: T_PK, table_b: T_PK, pre_a: &[], late_a: &["CREATE INDEX ia ON t(a)"], preload_nulls: false },
-    Variant { name: "droplate", flavor: Flavor::A, table_a: T_PK, table_b: T_PK, pre_a: &["CREATE INDEX ia ON t(a)"], late_a: &["DROP INDEX ia"], preload_nulls: true },
+    Variant { name: "pk", flavor: Flavor::Pk, table_a: T_PK, table_b: T_PLAIN, pre_a: &[], late_a: &[], preload_nulls: true, skip_probes: &["orderby-window"] },
+    Variant { name: "uniq", flavor: Flavor::Uniq, table_a: "CREATE TABLE t(id INT, a INT UNIQUE, b TEXT)", table_b: T_PLAIN, pre_a: &[], late_a: &[], preload_nulls: true, skip_probes: &[] },
+    Variant { name: "sec", flavor: Flavor::A, table_a: T_PK, table_b: T_PK, pre_a: &["CREATE INDEX ia ON t(a)"], late_a: &[], preload_nulls: true, skip_probes: &[] },
+    Variant { name: "sec_nopk", flavor: Flavor::A, table_a: T_PLAIN, table_b: T_PLAIN, pre_a: &["CREATE INDEX ia ON t(a)"], late_a: &[], preload_nulls: true, skip_probes: &[] },
+    Variant { name: "comp", flavor: Flavor::A, table_a: T_PK, table_b: T_PK, pre_a: &["CREATE INDEX iab ON t(a, b)"], late_a: &[], preload_nulls: true, skip_probes: &[] },
+    Variant { name: "partial", flavor: Flavor::A, table_a: T_PK, table_b: T_PK, pre_a: &["CREATE INDEX ip ON t(a) WHERE a > 1"], late_a: &[], preload_nulls: true, skip_probes: &[] },
+    Variant { name: "text", flavor: Flavor::Text, table_a: T_PK, table_b: T_PK, pre_a: &["CREATE INDEX ib ON t(b)"], late_a: &[], preload_nulls: true, skip_probes: &[] },
+    Variant { name: "late", flavor: Flavor::A, table_a: T_PK, table_b: T_PK, pre_a: &[], late_a: &["CREATE INDEX ia ON t(a)"], preload_nulls: false, skip_probes: &[] },
+    Variant { name: "droplate", flavor: Flavor::A, table_a: T_PK, table_b: T_PK, pre_a: &["CREATE INDEX ia ON t(a)"], late_a: &["DROP INDEX ia"], preload_nulls: true, skip_probes: &[] },
 ];
 fn variant(name: &str) -> Option<&'static Variant> {
     VARIANTS.iter().find(|v| v.name == name)
@@ -491,6 +493,7 @@ struct Outcome {
     stmt_classes: BTreeSet<String>,
     noidx_used_index: u64,
     nonempty_index_answers: u64,
+    index_window_probes: u64,
     /// diagnostics only (never part of a verdict): microseconds in setup / history / probes
     t_us: [u64; 3],
 }
@@ -501,12 +504,14 @@ struct Group {
     probes: Vec<Probe>,
     /// plan class of every probe (and of its no-index formulation) on twin A, computed on the first history and re-validated periodically
     plans: Option<Vec<(&'static str, &'static str)>>,
+    /// same for the three ORDER BY … LIMIT [OFFSET] forms
+    window_plans: Option<Vec<(&'static str, &'static str)>>,
     runs: u64,
     plan_cache_mismatch: u64,
 }
 impl Group {
     fn new(v: &'static Variant, preload: Preload) -> Group {
-        Group { v, preload, probes: probes(v, preload), plans: None, runs: 0, plan_cache_mismatch: 0 }
+        Group { v, preload, probes: probes(v, preload), plans: None, window_plans: None, runs: 0, plan_cache_mismatch: 0 }
     }
 }
 
@@ -611,6 +616,47 @@ fn compare(a: &Res, b: &Res) -> Option<(&'static str, String, String)> {
     }
 }
 
+/// one probe: twin A against twin B, and - when twin A answered through an index operator - twin A against
+/// its own index-defeating formulation
+#[allow(clippy::too_many_arguments)]
+fn eval_probe(a: &Twin, b: &Twin, op: &'static str, sql: &str, noidx: &str, pc: &'static str, npc: &'static str, out: &mut Outcome, seen: &mut HashSet<Class>) {
+    out.probes += 1;
+    *out.plan_counts.entry(pc).or_insert(0) += 1;
+    let ra = a.exec(sql);
+    let rb = b.exec(sql);
+    let site = format!("{}@{}", op, pc);
+    if let Some((kind, exp, obs)) = compare(&ra, &rb) {
+        let class = Class { site: site.clone(), kind: kind.into() };
+        if seen.insert(class.clone()) {
+            out.viols.push(Viol { class, sql: sql.to_string(), expected: format!("twin B (no index): {exp}"), observed: format!("twin A (indexed): {obs}") });
+        }
+    }
+    if is_index_plan(pc) {
+        out.index_probes += 1;
+        if op.starts_with("orderby-") {
+            out.index_window_probes += 1;
+        }
+        if let Res::Rows(r) = &ra {
+            if !r.is_empty() {
+                out.nonempty_index_answers += 1;
+            }
+        }
+        if is_index_plan(npc) {
+            out.noidx_used_index += 1;
+        } else {
+            let rn = a.exec(noidx);
+            if let Some((kind, exp, obs)) = compare(&ra, &rn) {
+                // only reported when the twin oracle is silent for this probe site (same defect otherwise)
+                let twin_fired = seen.iter().any(|c| c.site == site);
+                let class = Class { site: site.clone(), kind: format!("{kind}(self)") };
+                if !twin_fired && seen.insert(class.clone()) {
+                    out.viols.push(Viol { class, sql: sql.to_string(), expected: format!("twin A `{noidx}`: {exp}"), observed: format!("twin A (indexed): {obs}") });
+                }
+            }
+        }
+    }
+}
+
 static TIMES: [std::sync::atomic::AtomicU64; 5] = [std::sync::atomic::AtomicU64::new(0), std::sync::atomic::AtomicU64::new(0), std::sync::atomic::AtomicU64::new(0), std::sync::atomic::AtomicU64::new(0), std::sync::atomic::AtomicU64::new(0)];
 fn run_history(env: &mut Env, g: &mut Group, h: &[Op], skip: &[&str]) -> Outcome {
     use std::sync::atomic::Ordering::Relaxed;
@@ -705,41 +751,71 @@ fn run_history_inner(env: &mut Env, g: &mut Group, h: &[Op], skip: &[&str]) -> O
     }
     let plans = g.plans.clone().unwrap_or_default();
     // ---- probes ----------------------------------------------------------
+    let skipped = |op: &str| skip.contains(&op) || (op.starts_with("orderby") && skip.contains(&"orderby")) || (op.starts_with("orderby-") && skip.contains(&"orderby-window"));
     let mut seen: HashSet<Class> = HashSet::new();
     for (i, p) in g.probes.iter().enumerate() {
-        if skip.contains(&p.op) {
+        if skipped(p.op) {
             continue;
         }
         let (pc, npc) = plans[i];
-        out.probes += 1;
-        *out.plan_counts.entry(pc).or_insert(0) += 1;
-        let ra = a.exec(&p.sql);
-        let rb = b.exec(&p.sql);
-        let site = format!("{}@{}", p.op, pc);
-        if let Some((kind, exp, obs)) = compare(&ra, &rb) {
-            let class = Class { site: site.clone(), kind: kind.into() };
-            if seen.insert(class.clone()) {
-                out.viols.push(Viol { class, sql: p.sql.clone(), expected: format!("twin B (no index): {exp}"), observed: format!("twin A (indexed): {obs}") });
-            }
-        }
-        if is_index_plan(pc) {
-            out.index_probes += 1;
-            if let Res::Rows(r) = &ra {
-                if !r.is_empty() {
-                    out.nonempty_index_answers += 1;
+        eval_probe(&a, &b, p.op, &p.sql, &p.noidx, pc, npc, &mut out, &mut seen);
+    }
+    // ---- window probes: ORDER BY <indexed col> [DESC] LIMIT n [OFFSET m], n in {1, 2, rows}, m in {0, 1, n, n+1}.
+    // Only the sort key is selected: ties make the exact rows of a window ambiguous, but the multiset of
+    // its key values (and so its row count) is determined.  `rows` is read from twin B by a full scan.
+    if !skipped("orderby-limit") {
+        let (col, nocol) = match v.flavor {
+            Flavor::Pk => ("id", "id + 0"),
+            Flavor::Text => ("b", "b || ''"),
+            _ => ("a", "a + 0"),
+        };
+        let rows = match b.exec("SELECT id FROM t") {
+            Res::Rows(r) => r.len(),
+            _ => 0,
+        };
+        let forms: [(&'static str, &str, bool); 3] = [("orderby-limit", "", false), ("orderby-limit-offset", "", true), ("orderby-desc-limit-offset", " DESC", true)];
+        let mk = |dir: &str, n: usize, m: Option<usize>| -> (String, String) {
+            let tail = match m {
+                Some(m) => format!("LIMIT {n} OFFSET {m}"),
+                None => format!("LIMIT {n}"),
+            };
+            // the index-defeating formulation projects the sort expression itself: at this commit ORDER BY <expression
+            // that is not in the select list> is not sorted at all (engine-wide, unrelated to indexes)
+            (format!("SELECT {col} FROM t ORDER BY {col}{dir} {tail}"), format!("SELECT {nocol} FROM t ORDER BY {nocol}{dir} {tail}"))
+        };
+        if g.window_plans.is_none() || revalidate {
+            let fresh: Vec<(&'static str, &'static str)> = forms
+                .iter()
+                .map(|(_, dir, off)| {
+                    let (q, nq) = mk(dir, 2, off.then_some(1));
+                    (plan_class(&explain(a.db(), &q)), plan_class(&explain(a.db(), &nq)))
+                })
+                .collect();
+            if let Some(old) = &g.window_plans {
+                if *old != fresh {
+                    g.plan_cache_mismatch += 1;
                 }
             }
-            if is_index_plan(npc) {
-                out.noidx_used_index += 1;
-            } else {
-                let rn = a.exec(&p.noidx);
-                if let Some((kind, exp, obs)) = compare(&ra, &rn) {
-                    // only reported when the twin oracle is silent for this probe site (same defect otherwise)
-                    let twin_fired = seen.iter().any(|c| c.site == site);
-                    let class = Class { site: site.clone(), kind: format!("{kind}(self)") };
-                    if !twin_fired && seen.insert(class.clone()) {
-                        out.viols.push(Viol { class, sql: p.sql.clone(), expected: format!("twin A `{}`: {exp}", p.noidx), observed: format!("twin A (indexed): {obs}") });
-                    }
+            g.window_plans = Some(fresh);
+        }
+        let wplans = g.window_plans.clone().unwrap_or_default();
+        let mut ns = vec![1usize, 2];
+        if rows > 2 {
+            ns.push(rows);
+        }
+        for &n in &ns {
+            for (fi, (op, dir, off)) in forms.iter().enumerate() {
+                let (pc, npc) = wplans[fi];
+                if !off {
+                    let (q, nq) = mk(dir, n, None);
+                    eval_probe(&a, &b, op, &q, &nq, pc, npc, &mut out, &mut seen);
+                    continue;
+                }
+                let mut ms = vec![0usize, 1, n, n + 1];
+                ms.dedup();
+                for m in ms {
+                    let (q, nq) = mk(dir, n, Some(m));
+                    eval_probe(&a, &b, op, &q, &nq, pc, npc, &mut out, &mut seen);
                 }
             }
         }
@@ -767,19 +843,19 @@ const SKIP: usize = 99;
 const TX: [Op; 5] = [Begin, Commit, Rollback, Savept, RollTo];
 const PASSES: &[Pass] = &[
     Pass {
-        name: "residual",
+        name: "all-probes",
         ops: &[Ins1, Ins2, Ins3, InsM],
-        depth: [(1, 2), (1, 2), (0, 1)],
+        depth: [(2, 3), (1, 2), (0, 1)],
         skip_probes: &[],
         skip_variants: &[],
-        why: "every probe including `col = v AND col > v` (KF-C10-01 fires on every non-empty table, so that probe is evaluated only here); inserts only",
+        why: "every probe on every variant, including those removed elsewhere because they fire on (nearly) every table: ORDER BY <primary key> LIMIT (KF-C10-10); inserts only",
     },
-    Pass { name: "full", ops: &ALL_OPS, depth: [(2, 3), (2, 3), (1, 2)], skip_probes: &["eq-and-gt-same-col"], skip_variants: &[], why: "full alphabet; probe `col = v AND col > v` removed (KF-C10-01)" },
+    Pass { name: "full", ops: &ALL_OPS, depth: [(2, 3), (2, 3), (1, 2)], skip_probes: &[], skip_variants: &[], why: "full alphabet, all probes (variant pk without the LIMIT/OFFSET window probes: KF-C10-10)" },
     Pass {
         name: "full-deep",
         ops: &ALL_OPS,
         depth: [(SKIP, 4), (SKIP, SKIP), (SKIP, SKIP)],
-        skip_probes: &["eq-and-gt-same-col"],
+        skip_probes: &[],
         skip_variants: &["sec_nopk", "comp", "partial", "text", "late", "droplate"],
         why: "full alphabet one level deeper (thorough tier only) on one variant per index family: PRIMARY KEY, UNIQUE, secondary",
     },
@@ -787,7 +863,7 @@ const PASSES: &[Pass] = &[
         name: "full-droplate",
         ops: &ALL_OPS,
         depth: [(SKIP, 4), (SKIP, 3), (SKIP, SKIP)],
-        skip_probes: &["eq-and-gt-same-col"],
+        skip_probes: &[],
         skip_variants: &["pk", "uniq", "sec", "sec_nopk", "comp", "partial", "text", "late"],
         why: "full alphabet one level deeper (thorough tier only) on the variant whose index is dropped before probing (no index defect can prune it)",
     },
@@ -795,15 +871,23 @@ const PASSES: &[Pass] = &[
         name: "ins-tx",
         ops: &[Ins1, Ins2, InsM, TX[0], TX[1], TX[2], TX[3], TX[4]],
         depth: [(4, 5), (3, 5), (2, 3)],
-        skip_probes: &["eq-and-gt-same-col"],
+        skip_probes: &["orderby-window"],
         skip_variants: &[],
-        why: "no UPDATE / DELETE (KF-C10-03..08 break index maintenance for them) and no NULL (KF-C10-02): inserts in any key order under every transaction bracket",
+        why: "LIMIT/OFFSET window probes removed (KF-C10-11: a rolled-back INSERT leaves its secondary-index entry); no UPDATE / DELETE (KF-C10-03..08 break index maintenance for them) and no NULL (KF-C10-02): inserts in any key order under every transaction bracket",
+    },
+    Pass {
+        name: "ins-commit",
+        ops: &[Ins1, Ins2, InsM, Begin, Commit, Savept],
+        depth: [(3, 5), (3, 4), (1, 2)],
+        skip_probes: &[],
+        skip_variants: &[],
+        why: "inserts in any key order, autocommit or inside committed transactions (no ROLLBACK / ROLLBACK TO: KF-C10-11), all probes including the LIMIT/OFFSET windows over the index-ordered scan",
     },
     Pass {
         name: "ins-tx-deep",
         ops: &[Ins1, Ins2, InsM, TX[0], TX[1], TX[2], TX[3], TX[4]],
         depth: [(SKIP, 6), (SKIP, SKIP), (SKIP, SKIP)],
-        skip_probes: &["eq-and-gt-same-col"],
+        skip_probes: &["orderby-window"],
         skip_variants: &["uniq", "sec_nopk", "comp", "partial", "late", "droplate"],
         why: "ins-tx one level deeper (thorough tier only) on the PRIMARY KEY, secondary and TEXT variants",
     },
@@ -811,7 +895,7 @@ const PASSES: &[Pass] = &[
         name: "ins-null",
         ops: &[Ins1, Ins3, InsM, Begin, Commit, Rollback],
         depth: [(3, 4), (3, 4), (1, 2)],
-        skip_probes: &["eq-and-gt-same-col", "orderby"],
+        skip_probes: &["orderby"],
         skip_variants: &[],
         why: "as ins-tx with NULL in the indexed column; ORDER BY probe removed (KF-C10-02: index-ordered scan omits NULL rows)",
     },
@@ -819,7 +903,7 @@ const PASSES: &[Pass] = &[
         name: "unique-del",
         ops: &[Ins1, Ins2, InsM, Upd2, Del1, Del2, DelVal, Reins1, Begin, Commit, Rollback],
         depth: [(3, 4), (2, 4), (1, 2)],
-        skip_probes: &["eq-and-gt-same-col", "orderby"],
+        skip_probes: &["orderby"],
         skip_variants: &["sec", "sec_nopk", "comp", "partial", "text", "late", "droplate"],
         why: "PRIMARY KEY / UNIQUE variants without updates of the unique column (KF-C10-06): deletes, reinserts, non-key updates",
     },
@@ -827,11 +911,19 @@ const PASSES: &[Pass] = &[
         name: "late-upd",
         ops: &[Ins1, Ins2, InsM, Upd1, UpdAll, Begin, Commit, Rollback],
         depth: [(3, 4), (3, 4), (1, 2)],
-        skip_probes: &["eq-and-gt-same-col"],
+        skip_probes: &[],
         skip_variants: &["pk", "uniq", "sec", "sec_nopk", "comp", "partial", "text"],
         why: "index created / dropped after the history: updates of the later-indexed column without deletes (KF-C10-04: CREATE INDEX indexes tombstoned rows) and without NULL (KF-C10-02)",
     },
 ];
+/// probe operators not evaluated for (pass, variant)
+fn skips(pass: &Pass, v: &Variant) -> Vec<&'static str> {
+    let mut s: Vec<&'static str> = pass.skip_probes.to_vec();
+    if pass.name != "all-probes" {
+        s.extend_from_slice(v.skip_probes);
+    }
+    s
+}
 fn pass_by_name(n: &str) -> &'static Pass {
     PASSES.iter().find(|p| p.name == n).unwrap_or(&PASSES[0])
 }
@@ -877,7 +969,7 @@ impl<'a> Explorer<'a> {
         }
         self.groups.entry((v.name, p)).or_insert_with(|| Group::new(v, p));
         let g = self.groups.get_mut(&(v.name, p)).unwrap();
-        let o = run_history(&mut self.env, g, h, pass.skip_probes);
+        let o = run_history(&mut self.env, g, h, &skips(pass, v));
         let c: Vec<Class> = if o.illegal || o.setup_error.is_some() { vec![] } else { o.viols.iter().map(|x| x.class.clone()).collect() };
         if self.memo.len() < 200_000 {
             self.memo.insert(key, c.clone());
@@ -974,6 +1066,7 @@ fn report_outcome(rep: &mut Reporter, o: &Outcome) {
     rep.count("probes", o.probes);
     rep.count("probes_answered_by_index_operator", o.index_probes);
     rep.count("index_answers_nonempty", o.nonempty_index_answers);
+    rep.count("limit_offset_probes_answered_by_index_ordered_scan", o.index_window_probes);
     rep.count("noindex_formulation_still_used_index", o.noidx_used_index);
     for c in &o.stmt_classes {
         rep.outcome(c);
@@ -994,7 +1087,7 @@ impl C10 {
         }
         ex.group(v, p);
         let g = ex.groups.get_mut(&(v.name, p)).unwrap();
-        let o = run_history(&mut ex.env, g, h, pass.skip_probes);
+        let o = run_history(&mut ex.env, g, h, &skips(pass, v));
         if let Some(e) = &o.setup_error {
             if report {
                 rep.violation("C10", "setup", &format!("C10/{}/setup/{}/error", v.name, p.name()), || json!({"pass": pass.name, "variant": v.name, "preload": p.name(), "history": hist_json(h)}), "setup succeeds", e);
@@ -1241,6 +1334,7 @@ impl Check for C10 {
         rep.expect_nonzero("plan:SecondaryIndexScan");
         rep.expect_nonzero("plan:IndexNestedLoopJoin");
         rep.expect_nonzero("index_answers_nonempty");
+        rep.expect_nonzero("limit_offset_probes_answered_by_index_ordered_scan");
         rep.note("PhysicalOperator::IndexScan is never constructed by the planner at this commit (only SecondaryIndexScan, also for PRIMARY KEY lookups, and IndexNestedLoopJoin): plan:IndexScan = 0 is expected");
         self.explore(ctx, rep);
     }
@@ -1255,7 +1349,7 @@ impl Check for C10 {
         let mut env = Env::new(&ctx.scratch);
         let mut g = Group::new(v, p);
         let pass = pass_by_name(case["pass"].as_str().unwrap_or("full"));
-        let o = run_history(&mut env, &mut g, &h, pass.skip_probes);
+        let o = run_history(&mut env, &mut g, &h, &skips(pass, v));
         report_outcome(rep, &o);
         rep.case(vcore::util::hash_of(&(v.name, p, &h)), true);
         if let Some(e) = &o.setup_error {
